@@ -6,6 +6,16 @@ From OIDC Require Import Lib C10_Prog.
 
 Inductive router := RProvider | RLegacy.
 
+(* which OPTIONAL storage interfaces the storage implements (the framework type-asserts them):
+   SStd = refstore as it is: CanSetUserinfoFromRequest and the three grant storages
+          (ClientCredentials-, TokenExchange-, DeviceAuthorizationStorage);
+   SMax = additionally CanTerminateSessionFromRequest, CanGetPrivateClaimsFromRequest,
+          TokenExchangeTokensVerifierStorage, JWTProfileTokenStorage;
+   SMin = only the three grant storages (no CanSetUserinfoFromRequest) *)
+Inductive storage := SStd | SMax | SMin.
+Definition is_max (sv : storage) : bool := match sv with SMax => true | _ => false end.
+Definition is_min (sv : storage) : bool := match sv with SMin => true | _ => false end.
+
 (* the registrations of opfix.StdClients *)
 Inductive client := Web | Web2 | Native | Spa | Pkjwt.
 Inductive cauth := ABasic | APost | ANone | APkjwt.
@@ -94,22 +104,23 @@ Definition opt (b : bool) (f : prog -> prog) (k : prog) : prog := if b then f k 
 
 (* ---- token.go ---- *)
 (* CreateAccessToken: createTokens, then for JWT access tokens CreateJWT *)
-Definition create_access_token (h : kind -> prog) (refresh te jwt : bool) (k : prog) : prog :=
+Definition create_access_token (sv : storage) (h : kind -> prog) (refresh te jwt : bool) (k : prog) : prog :=
   Call (if refresh then MCreateAccessAndRefreshTokens else MCreateAccessToken) h
     (opt jwt (fun k' =>
-       Call (if te then MGetPrivateClaimsFromTokenExchangeRequest else MGetPrivateClaimsFromScopes) h
+       Call (if te then MGetPrivateClaimsFromTokenExchangeRequest
+             else if is_max sv then MGetPrivateClaimsFromRequest else MGetPrivateClaimsFromScopes) h
          (Call MSigningKey h k')) k).
 
 (* CreateIDToken *)
-Definition create_id_token (h : kind -> prog) (te : bool) (k : prog) : prog :=
+Definition create_id_token (sv : storage) (h : kind -> prog) (te : bool) (k : prog) : prog :=
   Call MSigningKey h
     (if te then Call MSetUserinfoFromTokenExchangeRequest h k
-     else Call MSetUserinfoFromScopes h (Call MSetUserinfoFromRequest h k)).
+     else Call MSetUserinfoFromScopes h (opt (negb (is_min sv)) (Call MSetUserinfoFromRequest h) k)).
 
 (* CreateTokenResponse *)
-Definition create_token_response (h : kind -> prog) (with_at refresh jwt authreq : bool) (k : prog) : prog :=
-  opt with_at (create_access_token h refresh false jwt)
-    (create_id_token h false (opt authreq (Call MDeleteAuthRequest h) k)).
+Definition create_token_response (sv : storage) (h : kind -> prog) (with_at refresh jwt authreq : bool) (k : prog) : prog :=
+  opt with_at (create_access_token sv h refresh false jwt)
+    (create_id_token sv h false (opt authreq (Call MDeleteAuthRequest h) k)).
 
 Definition token_creds (with_at refresh idt : bool) : list cred :=
   (if with_at then [CAccess] else []) ++ (if refresh then [CRefresh] else []) ++ (if idt then [CIDToken] else []).
@@ -159,15 +170,15 @@ Definition h_callback_code (m : rmode) : prog :=
        (Call MSaveAuthCode auth_error (ok (success_cls m) [CCode]))).
 
 (* AuthorizeCallback -> AuthResponse -> AuthResponseToken *)
-Definition h_callback_implicit (c : client) (with_at : bool) (m : rmode) : prog :=
+Definition h_callback_implicit (sv : storage) (c : client) (with_at : bool) (m : rmode) : prog :=
   Call MAuthRequestByID (errs K4xx "")
     (Call MGetClientByClientID auth_error
-       (create_token_response auth_error with_at false (jwt_at c) true
+       (create_token_response sv auth_error with_at false (jwt_at c) true
           (ok (success_cls m) (token_creds with_at false true)))).
 
 (* CodeExchange + AuthorizeCodeClient / codeExchangeHandler + LegacyServer.CodeExchange *)
-Definition h_token_code (r : router) (c : client) (offline : bool) : prog :=
-  let tail := create_token_response (pass r) true offline (jwt_at c) true
+Definition h_token_code (sv : storage) (r : router) (c : client) (offline : bool) : prog :=
+  let tail := create_token_response sv (pass r) true offline (jwt_at c) true
                 (ok KOk (token_creds true offline true)) in
   match r with
   | RProvider =>
@@ -182,9 +193,9 @@ Definition h_token_code (r : router) (c : client) (offline : bool) : prog :=
   end.
 
 (* RefreshTokenExchange + AuthorizeRefreshClient / LegacyServer.RefreshToken *)
-Definition h_refresh (r : router) (c : client) : prog :=
+Definition h_refresh (sv : storage) (r : router) (c : client) : prog :=
   let tail := Call MTokenRequestByRefreshToken (bad "invalid_grant")
-                (create_token_response (pass r) true true (jwt_at c) false (ok KOk (token_creds true true true))) in
+                (create_token_response sv (pass r) true true (jwt_at c) false (ok KOk (token_creds true true true))) in
   match r with
   | RProvider =>
       match auth_of c with
@@ -196,27 +207,32 @@ Definition h_refresh (r : router) (c : client) : prog :=
   end.
 
 (* ClientCredentialsExchange / VerifyClient (client_credentials branch) + LegacyServer.ClientCredentialsExchange *)
-Definition h_client_credentials (r : router) (c : client) : prog :=
+Definition h_client_credentials (sv : storage) (r : router) (c : client) : prog :=
   Call MClientCredentials (match r with RProvider => bad "invalid_client" | RLegacy => write_error end)
     (Call MClientCredentialsTokenRequest (pass r)
-       (create_access_token (pass r) false false (jwt_at c) (ok KOk [CAccess]))).
+       (create_access_token sv (pass r) false false (jwt_at c) (ok KOk [CAccess]))).
 
 (* JWTProfile / LegacyServer.JWTProfile; CreateJWTTokenResponse issues an opaque token *)
-Definition h_jwt_bearer (r : router) : prog :=
+Definition h_jwt_bearer (sv : storage) (r : router) : prog :=
   Call MGetKeyByIDAndClientID (match r with RProvider => srv r | RLegacy => bad "invalid_request" end)
     (Call MValidateJWTProfileScopes (pass r)
-       (create_access_token (pass r) false false false (ok KOk [CAccess]))).
+       (opt (is_max sv) (Call MJWTProfileTokenType (pass r))   (* CreateJWTTokenResponse, JWTProfileTokenStorage *)
+          (create_access_token sv (pass r) false false false (ok KOk [CAccess])))).
 
 (* TokenExchange + ValidateTokenExchangeRequest / tokenExchangeHandler + LegacyServer.TokenExchange *)
-Definition h_token_exchange (r : router) (c : client) (s : subj) (w : want) : prog :=
+Definition h_token_exchange (sv : storage) (r : router) (c : client) (s : subj) (w : want) : prog :=
   let response :=
     match w with
-    | WantAccess => create_access_token (pass r) false true (jwt_at c) (ok KOk [CAccess])
-    | WantRefresh => create_access_token (pass r) true true (jwt_at c) (ok KOk [CAccess; CRefresh])
-    | WantID => create_id_token (pass r) true (ok KOk [CAccess; CIDToken])  (* the ID token travels as access_token *)
+    | WantAccess => create_access_token sv (pass r) false true (jwt_at c) (ok KOk [CAccess])
+    | WantRefresh => create_access_token sv (pass r) true true (jwt_at c) (ok KOk [CAccess; CRefresh])
+    | WantID => create_id_token sv (pass r) true (ok KOk [CAccess; CIDToken])  (* the ID token travels as access_token *)
     end in
   let request :=   (* CreateTokenExchangeRequest: GetTokenIDAndSubjectFromToken, then the storage *)
-    Call (match s with SubjRefresh => MTokenRequestByRefreshToken | _ => MKeySet end) (bad "invalid_request")
+    Call (match s with SubjRefresh => MTokenRequestByRefreshToken | _ => MKeySet end)
+      (* a subject token the framework cannot verify is offered to TokenExchangeTokensVerifierStorage,
+         which (refstore) knows no foreign tokens and rejects it *)
+      (if is_max sv then fun _ => Call MVerifyExchangeSubjectToken (bad "invalid_request") (Ret (R K4xx "invalid_request" []))
+       else bad "invalid_request")
       (Call MValidateTokenExchangeRequest (pass r) (Call MCreateTokenExchangeRequest (pass r) response)) in
   match r with
   | RProvider => Call MAuthorizeClientIDSecret (bad "invalid_client") (Call MGetClientByClientID (bad "invalid_client") request)
@@ -238,9 +254,9 @@ Definition device_err (kd : kind) : resp :=
   R K4xx (if is_deadline kd then "slow_down" else "access_denied") [].
 
 (* deviceAccessToken / deviceTokenHandler + LegacyServer.DeviceToken; CreateDeviceTokenResponse *)
-Definition h_device_token (r : router) (c : client) (offline openid : bool) : prog :=
-  let response := create_access_token (pass r) offline false (jwt_at c)
-                    (opt openid (create_id_token (pass r) false) (ok KOk (token_creds true offline openid))) in
+Definition h_device_token (sv : storage) (r : router) (c : client) (offline openid : bool) : prog :=
+  let response := create_access_token sv (pass r) offline false (jwt_at c)
+                    (opt openid (create_id_token sv (pass r) false) (ok KOk (token_creds true offline openid))) in
   let poll := Call MGetDeviceAuthorizatonState (fun kd => Ret (device_err kd)) in
   match r with
   | RProvider => client_id_from_request c (poll (Call MGetClientByClientID (pass r) response))
@@ -294,8 +310,8 @@ Definition h_revoke (r : router) (c : client) (t : revtok) (hint : bool) : prog 
   end.
 
 (* EndSession + ValidateEndSessionRequest / LegacyServer.EndSession *)
-Definition h_end_session (r : router) (v : endvar) : prog :=
-  let terminate := Call MTerminateSession (pass r) (ok K302 []) in
+Definition h_end_session (sv : storage) (r : router) (v : endvar) : prog :=
+  let terminate := Call (if is_max sv then MTerminateSessionFromRequest else MTerminateSession) (pass r) (ok K302 []) in
   let client := Call MGetClientByClientID (pass r) terminate in
   match v with
   | EndHint => Call MKeySet (bad "invalid_request") client
@@ -315,23 +331,23 @@ Definition h_discovery : prog :=
 Definition h_ready (r : router) : prog :=
   Call MHealth (match r with RProvider => errs K5xx "" | RLegacy => status_error_5xx end) (ok KOk []).
 
-Definition handler (r : router) (f : flow) : prog :=
+Definition handler (r : router) (sv : storage) (f : flow) : prog :=
   match f with
   | FAuthorize _ hint => h_authorize r hint
   | FAuthorizeUnregistered _ => h_authorize_unregistered r
   | FCallbackCode _ m => h_callback_code m
-  | FCallbackImplicit c a m => h_callback_implicit c a m
-  | FTokenCode c o => h_token_code r c o
-  | FRefresh c => h_refresh r c
-  | FClientCredentials c => h_client_credentials r c
-  | FJwtBearer => h_jwt_bearer r
-  | FTokenExchange c s w => h_token_exchange r c s w
+  | FCallbackImplicit c a m => h_callback_implicit sv c a m
+  | FTokenCode c o => h_token_code sv r c o
+  | FRefresh c => h_refresh sv r c
+  | FClientCredentials c => h_client_credentials sv r c
+  | FJwtBearer => h_jwt_bearer sv r
+  | FTokenExchange c s w => h_token_exchange sv r c s w
   | FDeviceAuth c => h_device_auth r c
-  | FDeviceToken c o i => h_device_token r c o i
+  | FDeviceToken c o i => h_device_token sv r c o i
   | FUserinfo c => h_userinfo r c
   | FIntrospect c => h_introspect r c
   | FRevoke c t h => h_revoke r c t h
-  | FEndSession _ v => h_end_session r v
+  | FEndSession _ v => h_end_session sv r v
   | FKeys => h_keys r
   | FDiscovery => h_discovery
   | FReady => h_ready r
@@ -357,8 +373,9 @@ Definition open_pair (f : flow) (m : method) : bool :=
 
 (* the handlers that go on calling the storage after some failure (revocation: KeySet,
    and GetRefreshTokenInfo answering ErrInvalidRefreshToken) *)
-Definition goes_on (f : flow) : bool :=
+Definition goes_on (sv : storage) (f : flow) : bool :=
   match f with
+  | FTokenExchange _ _ _ => is_max sv
   | FRevoke c RevAccess hint => jwt_at c || negb hint
   | FRevoke _ RevRefresh _ => true
   | _ => false
